@@ -301,6 +301,7 @@ def replay_config(ctx, cfg, stacks, dirs, sample=None):
         rows = ctx.rng.sample(rows, sample)
         rows.sort(key=lambda e: (e['p'], e['m']))
     n = 0
+    hd = digest(h)
     for asgi in stacks:
         b = Built(asgi, sbs, dirs)
         bad = False
@@ -318,7 +319,7 @@ def replay_config(ctx, cfg, stacks, dirs, sample=None):
         for e, o in zip(rows, obs):
             n += 1
             case = {'h': h, 'sbs': sbs, 'asgi': asgi, 'm': e['m'], 'p': e['p'], 'expected': e}
-            ctx.case(case, nontrivial=nontrivial(h, e, len(kinds)), key=(digest(h), sbs, asgi, e['m'], e['p']))
+            ctx.case(case, nontrivial=nontrivial(h, e, len(kinds)), key=(hd, sbs, asgi, e['m'], e['p']))
             d = compare(e, o)
             if d:
                 case['observed'] = o
@@ -413,12 +414,14 @@ def leg_a(ctx, dirs):
         ra = ctx.tlc('MC_Dispatch', cfg, workers=4, timeout=1200, count=False)
         cfgs2 = {digest([b['h'], b['sbs']]): b for b in ra.json}
         del ra
-        for b in cfgs2.values():
-            replayed += replay_config(ctx, b, (False, True), dirs)
+        for i, k in enumerate(sorted(cfgs2)):
+            # quick, two-call export: the two stacks take turns (every configuration runs, on one stack)
+            stacks = (False, True) if cfg != 'MC_DispatchA2q.cfg' else ((i + ctx.seed) % 2 == 1,)
+            replayed += replay_config(ctx, cfgs2[k], stacks, dirs)
         ncfg += len(cfgs2)
         ctx.progress('leg A (exhaustive tables, %s): %d configurations, %d requests replayed in total'
                      % (cfg, len(cfgs2), replayed))
-    rs = ctx.tlc('MC_Dispatch', ctx.pick('MC_DispatchSim.cfg', 'MC_DispatchSim6.cfg'), simulate={'num': ctx.pick(3, 25)},
+    rs = ctx.tlc('MC_Dispatch', ctx.pick('MC_DispatchSim.cfg', 'MC_DispatchSim6.cfg'), simulate={'num': ctx.pick(3, 15)},
                  depth=8, seed=ctx.seed + 1, workers=4, timeout=1200, count=False)
     cfgs3 = {digest([b['h'], b['sbs']]): b for b in rs.json}
     del rs
@@ -607,7 +610,7 @@ def run_scenario(sc, asgi, dirs):
 
 
 def leg_b(ctx, dirs):
-    nsc = ctx.pick(250, 6000)
+    nsc = ctx.pick(250, 4000)
     seen = {}
     nreq = 0
     for i in range(nsc):
